@@ -7,7 +7,7 @@ import tempfile
 from hypothesis import strategies as st
 
 from vlib import gen, serial
-from vlib.core import Part
+from vlib.core import Part, nested_part
 from vlib.observe import Uids, snapshot
 
 ID = "C05"
@@ -217,4 +217,5 @@ def hyp_cases(draw, tier):
 
 PARTS = [
     Part("roundtrip", run, strategy=lambda tier: hyp_cases(tier), n={"quick": 1000, "thorough": 100000}),
+    nested_part("C05", ["roundtrip"], {"LC_ALL": "C", "LANG": "C", "PYTHONUTF8": "0", "PYTHONCOERCECLOCALE": "0", "PYTHONIOENCODING": "utf8"}, "c-locale", "text files opened without an explicit encoding are read and written as ASCII"),
 ]
